@@ -37,6 +37,8 @@ Step(rules, e, h2) ==
 
 \* short block size of the link a handle is in (0 when no stream description was logged for its file: damaged-file families)
 HalfBs0(F, s) == LET k == LinkOf(F, s.pos) IN IF k \in 1..Len(F.links) THEN Shr(F.links[k].bs0, s.hs) ELSE 0
+\* ... of the link whose decode state the handle is in after the call (cur, 0-based, -1 = none): a handle exactly on a link boundary is still in the link that ends there
+HalfBs0At(F, s, cur) == IF cur + 1 \in 1..Len(F.links) THEN Shr(F.links[cur + 1].bs0, s.hs) ELSE HalfBs0(F, s)
 Next ==
   /\ l <= Len(Tr)
   /\ LET e == Tr[l] IN
@@ -64,8 +66,8 @@ Next ==
                                 \* the lap region of the second handle: min of the two half short blocks (at most its own when the first position is unknown)
                                 ![e.h2] = [@ EXCEPT !.lap = IF e.ret = 0 /\ s2.pos >= 0 /\ s2.open
                                                             THEN (IF s1.pos >= 0 /\ s1.open
-                                                                  THEN Min({HalfBs0(F1, s1), HalfBs0(F2, s2)})
-                                                                  ELSE HalfBs0(F2, s2)) \div 2
+                                                                  THEN Min({HalfBs0At(F1, s1, IF "cur11" \in DOMAIN e THEN e.cur11 ELSE -1), HalfBs0At(F2, s2, e.cur)})
+                                                                  ELSE HalfBs0At(F2, s2, e.cur)) \div 2
                                                             ELSE 0,
                                                     !.pos = IF e.ret = 0 \/ e.tell = s2.pos THEN @ ELSE -1]])
             /\ UNCHANGED <<fidx, scn>>
